@@ -150,6 +150,16 @@ fn judge_text_inner(ctx: &mut Ctx, kind: &str, s: &str, via_json: bool) {
             }
         };
         let o: DecOut = if via_json { dec::json_kt(kt, &serde_json::to_string(s).unwrap()) } else { dec::parse_kt(kt, s) };
+        if via_json && kind.starts_with("canonical") {
+            for (form, d) in dec::json_variants_kt(kt, &serde_json::to_string(s).unwrap()) {
+                ctx.count("evaluations");
+                if d.res.is_ok() != want {
+                    ctx.violate("C12", if want { "canonical-text-rejected" } else { "non-canonical-text-accepted" }, &format!("{kind}/{form}/{}", kt.name()), || {
+                        format!("{form}::<{}> of {s:?}: {:?}", kt.name(), d.res.as_ref().map(|_| "Ok").map_err(|e| e.clone()))
+                    }, || json!({"kind": "text", "entry": "json", "kt": kt.name(), "text": s, "mutation": kind}));
+                }
+            }
+        }
         ctx.count("evaluations");
         ctx.count(&format!("text.{kind}.{}", if o.res.is_ok() { "accept" } else { "reject" }));
         ctx.distinct(h64(&[s.as_bytes(), kt.name().as_bytes(), &[via_json as u8]]));
@@ -501,6 +511,52 @@ pub fn c13(ctx: &mut Ctx) {
                 }
             }
         }
+        // 65-byte (uncompressed) public keys are an open region for C02, but prefix-locality still holds: the
+        // verdict an item gets ALONE (taken first, after an unrelated record) is the verdict it must get after
+        // a sibling that shares the first 33 key bytes
+        if !cfg!(miri) && scheme == Scheme::Secp {
+            if let Some((_, u)) = sig::secp_normalise(&rec.key.pub_bytes()) {
+                let mut unc = vec![4u8];
+                unc.extend_from_slice(&u);
+                let mk = |pk: Vec<u8>, seq: u64| {
+                    let mut r2 = Rec::minimal(rec.key, seq);
+                    r2.map.insert(b"secp256k1".to_vec(), Item::S(pk));
+                    r2.bytes()
+                };
+                let a65 = mk(unc.clone(), 5);
+                let mut bad = unc.clone();
+                bad[64] ^= 0x55;
+                let mut neg = unc.clone();
+                let y = crate::refimpl::u256::from_slice(&u[32..]);
+                neg[33..].copy_from_slice(&crate::refimpl::u256::sub(&crate::refimpl::u256::P, &y));
+                let unrelated = Rec::minimal(pool(scheme)[1], 2).bytes();
+                for (cls, x) in [("uncompressed-key-garbage-y", mk(bad, 6)), ("uncompressed-negated-key", mk(neg, 6)), ("uncompressed-key", mk(unc.clone(), 7))] {
+                    for &kt in &kts {
+                        let _ = dec::decode_kt(kt, &unrelated);
+                        let alone = dec::decode_kt(kt, &x).res.is_ok();
+                        let _ = dec::decode_kt(kt, &unrelated);
+                        let mut buf = a65.clone();
+                        buf.extend_from_slice(&x);
+                        ctx.count("evaluations");
+                        ctx.count("stream.uncompressed-key-sequences");
+                        let replay = || json!({"kind": "stream", "kt": kt.name(), "item": hex(&a65), "suffix": hex(&x), "class": cls});
+                        if decode_seq_kt(kt, &buf, 1).is_ok() {
+                            let got = decode_seq_kt(kt, &buf, 2).is_ok();
+                            if got != alone {
+                                ctx.violate("C13", "sequence-item-verdict-differs-from-alone", &format!("{cls}/{}", kt.name()), || {
+                                    format!("second item (class {cls}): accepted={got} in the stream, accepted={alone} alone")
+                                }, replay);
+                            }
+                            let listed = crate::props::rlp_wrap_list(&[a65.clone(), x.clone()]);
+                            let (res, _l, _p) = dec::list_kt(kt, &listed);
+                            if res.is_ok() != alone {
+                                ctx.violate("C13", "list-item-verdict-differs-from-alone", &format!("{cls}/{}", kt.name()), || format!("list [uncompressed-key record, {cls}] accepted={}", res.is_ok()), replay);
+                            }
+                        }
+                    }
+                }
+            }
+        }
         // back-to-back sequences and RLP lists of 1..=8 valid records
         for n in 1..=8usize {
             if cfg!(miri) && ctx.expired() {
@@ -737,6 +793,11 @@ pub fn c14(ctx: &mut Ctx) {
                     }
                     2 => {
                         rec.map.insert(b"client".to_vec(), Item::L(vec![Item::S(vec![]), Item::S(b"v".to_vec()), Item::S("ü".as_bytes().to_vec())]));
+                    }
+                    0 if variant > 0 => {
+                        // a string wrapping an encoded list, and a port / address wrapped the same way under another key
+                        let inner = rlp::enc_item(&Item::L(vec![Item::S(b"Geth".to_vec()), Item::S(b"1".to_vec())]));
+                        rec.map.insert(b"client".to_vec(), Item::S(inner));
                     }
                     3 => {
                         rec.map.insert(b"client".to_vec(), gen::custom_value(&mut r, 40));
